@@ -22,6 +22,8 @@ type Case struct {
 	FEN   string   `json:"fen"`
 	Moves []string `json:"moves"`
 	UCI   bool     `json:"uci,omitempty"`
+	// Before: conforming position / ucinewgame lines sent on the same driver ahead of the session (gen.EarlierPositions)
+	Before []string `json:"before,omitempty"`
 	Start bool     `json:"startpos,omitempty"`
 	// Prefixes: position commands with these shorter move lists are sent first (as a GUI does during a game),
 	// NewGame[i] puts a ucinewgame in front of the i-th command (the last entry: in front of the final one)
@@ -180,7 +182,7 @@ func checkUCI(c Case, rec *evid.Rec) error {
 	if len(c.Moves) > 0 {
 		want = p.NormEP()
 	}
-	var lines []string
+	lines := append([]string{}, c.Before...)
 	var wantEach []string // what `fen` must print after each earlier position command of the session
 	base := strings.SplitN(cmd, " moves ", 2)[0]
 	for i, k := range c.Prefixes {
@@ -305,6 +307,10 @@ func TestC02(t *testing.T) {
 					c.NewGame = append(c.NewGame, gen.Chance(t, 1, 4, "newgame"))
 				}
 				c.NewGame = append(c.NewGame, gen.Chance(t, 1, 4, "newgameLast"))
+			}
+			c.Before = gen.EarlierPositions(t, c.FEN, c.Start, c.Moves)
+			if len(c.Before) > 0 {
+				rec.Class("uci_earlier_position_commands")
 			}
 			if rec.WantSample("uci") {
 				rec.Sample("uci", c)
